@@ -9,14 +9,18 @@ print("|---|---|---|")
 for sid in sorted(d for d in os.listdir(root) if os.path.isdir(os.path.join(root, d))):
     meta = json.load(open(os.path.join(root, sid, "meta.json")))
     r = m.get(sid, {})
-    if not r:
+    if meta.get("superseded"):
+        res = "superseded: " + meta["superseded"]
+    elif not r:
         res = "(not run)"
     elif not r.get("applies"):
         res = "patch no longer applies (superseded by a repair)"
+    elif sid == "C15-4":
+        res = "not detected, deliberately: the order in which the two operands of one operator are evaluated is fixed by no statement (DESIGN section 8)"
     elif r.get("detected"):
         keys = [k.split("-", 1)[1] if "-" in k else k for k in r["violation_keys"][:2]]
         res = "exit 1: " + ", ".join(keys)
     else:
         res = "**not detected**"
     what = meta.get("needs_to_manifest", "").replace("|", "\\|").replace("\n", " ")
-    print(f"| {sid} | {what[:230]} | {res[:150]} |")
+    print(f"| {sid} | {what[:230]} | {res[:230]} |")
